@@ -40,7 +40,8 @@ CONCRETE = {
     17: "outcome-depends-on-batch-or-padding",
     18: "crash-on-offered-action",
 }
-DISAGREE = {1: "mask relation", 2: "action not offered by the model", 3: "done differs", 7: "model step not ok",
+DISAGREE = {20: "instance outside the documented format (wfb false)", 21: "final bookkeeping (first_node/current_node/i) differs from the model",
+            19: "generated instance fails wfb", 1: "mask relation", 2: "action not offered by the model", 3: "done differs", 7: "model step not ok",
             12: "episode did not complete", 13: "checker model verdict differs", 5: "reward differs from the model"}
 
 
@@ -178,9 +179,9 @@ def report_codes(adapter, pid, ok_items, codes, ctx, searching=False):
             continue
         tag, step = c % 1000, c // 1000
         if tag in CONCRETE:
-            nc += 1
             sig = adapter.signature(it, tag, step)
-            ctx.failure(sig, it.replay({"code": c, "step": step, "what": CONCRETE[tag]}), tag=adapter.name)
+            if ctx.failure(sig, it.replay({"code": c, "step": step, "what": CONCRETE[tag]}), tag=adapter.name):
+                nc += 1        # only failures that are not listed known findings count (they must not suppress the search)
         else:
             nd += 1
             if first_dis is None:
